@@ -71,6 +71,7 @@ class BasicOperationEngine:
 
     def reload(self, previous_operation_logs: list[OperationLog]) -> None:
         self._history = SimulationHistory(logs=previous_operation_logs)
+        self._buffered_events = list(self._history.last_playlog().events)
 
     def exec(self, command: Command) -> OperationLog:
         match command:
@@ -107,6 +108,7 @@ class BasicOperationEngine:
 
     def rollback(self, idx: int):
         self._history.discard_after(idx)
+        self._buffered_events = list(self._history.last_playlog().events)
 
     def _console(self, console_text: ConsoleText) -> OperationLog:
         output = SimulationProfile(self.get_current_viewer()).inspect(console_text.text)
